@@ -264,7 +264,7 @@ fn corpus_fold() -> Vec<BExp> {
     let c = |v: i64| IExp::Const(v);
     let add = |a: i64, b: i64| IExp::Arith(0, vec![c(a), c(b)]);
     vec![
-        // finding #10, both classes
+        // finding #10 (repaired by 8b83ae6a), both classes: regression cases
         BExp::Cmp(0, add(9007199254740993, 1), c(9007199254740994)),
         BExp::Cmp(2, add(i64::MAX, 1), c(0)),
         BExp::Cmp(0, IExp::Arith(1, vec![c(i64::MAX), c(1)]), c(i64::MAX - 1)),
@@ -855,7 +855,7 @@ fn gen_scan_cases(rng: &mut Rng, idx: usize, out: &mut Out) {
 fn corpus_scan_specs() -> Vec<Vec<RuleSpec>> {
     let lit = |name: &str, w: &str| Pat { def: format!("${} = \"{}\"", name, w), inst: vec![w.as_bytes().to_vec()], fixed_len: true };
     vec![
-        // finding 18: `any of (..) in (..)` leaves the pattern fast-scan eligible
+        // finding 18 (repaired by 2deda6b6): `any of (..) in (..)` used to leave the pattern fast-scan eligible
         vec![RuleSpec { pats: vec![lit("p0", "alpha")], uses: vec![Use::OfIn(vec![0], 10, 40)], conj: true }],
         vec![RuleSpec { pats: vec![lit("p0", "alpha")], uses: vec![Use::OfAtEnd(vec![0])], conj: true }],
     ]
